@@ -115,9 +115,35 @@ Lemma bound_same_keys f w fk :
   | None => lookup fk (bound_envs f w) = None
   end.
 Proof.
-  unfold bound_flags, bound_envs. induction (w_flags w) as [|[[[ev t] d] s] l IH]; simpl; auto.
+  unfold bound_flags, bound_members, bound_envs. induction (w_flags w) as [|[[ev t] ms] l IH]; simpl; auto.
   destruct (str_eqb fk _); eauto.
 Qed.
+
+(* viper's view of a bound set is [mf_entry] of its members *)
+Lemma bound_flags_lookup f w fk :
+  lookup fk (bound_flags f w) = match lookup fk (bound_members f w) with Some e => Some (mf_entry f e) | None => None end.
+Proof.
+  unfold bound_flags. induction (bound_members f w) as [|[k e] l IH]; simpl; auto.
+  destruct (str_eqb fk k); auto.
+Qed.
+
+(* BindFlagsToEnv: members that are nil or not set, in any number and order, in front of a set member do not hide it —
+   provided both scans of multiFlags SKIP nil members *)
+Definition quiet (m : member) : Prop := m = MNil \/ exists d, m = MFlag d None.
+Lemma mf_set_member_seen pre d a post :
+  Forall quiet pre ->
+  mf_changed NilSkip (pre ++ MFlag d (Some a) :: post) = true /\
+  mf_value NilSkip (pre ++ MFlag d (Some a) :: post) = Some a.
+Proof.
+  intros H. unfold mf_value.
+  assert (mf_changed NilSkip (pre ++ MFlag d (Some a) :: post) = true /\
+          mf_first_set NilSkip (pre ++ MFlag d (Some a) :: post) = Some a) as [A B].
+  { induction H as [|m pre [->|[d0 ->]] Hr IH]; simpl; auto. }
+  rewrite B. auto.
+Qed.
+(* and nothing is seen as set when no member is *)
+Lemma mf_no_set_member nk ms : Forall quiet ms -> mf_changed nk ms = false.
+Proof. intros H. induction H as [|m r [->|[d0 ->]] Hr IH]; simpl; auto. destruct nk; auto. Qed.
 
 (* ---------- what the property demands for one leaf ---------- *)
 (* [spec_val]: explicitly set flag > environment variable > configuration file > supplied default;
